@@ -18,7 +18,7 @@ CONSTANTS MaxDecls,     \* bound on declarations per kind
           Tricky,       \* TRUE: identifier pools contain names that start with keywords (i32x, doubleValue, voidable ...)
           EmitAt,       \* programs are emitted after this many steps
           WithBreaks,   \* TRUE: the last step of a walk may be one invalidating edit
-          Focus,        \* "all", or "enums" / "scopes" / "typedefs" / "enumrefs" / "annotations" / "fields": restrict the builder to one family of declarations
+          Focus,        \* "all", or "enums" / "scopes" / "typedefs" / "enumrefs" / "annotations" / "fields" / "breaks": restrict the builder to one family of declarations
           Hard          \* "none", or one family of valid constructs the generators are known to mishandle; the last step of a
                         \* walk then adds that construct (C11 keeps these apart from all other programs so that a recorded
                         \* finding cannot hide a new one): "keywords" = identifiers that are reserved words of a target
@@ -69,6 +69,16 @@ Defaults(t) == {[k |-> "none"]} \cup
      [] t = M(B("string"), B("i32")) -> {[k |-> "map", pairs |-> <<<<[k |-> "str", s |-> "a"], [k |-> "int", i |-> 1]>>>>]}
      [] OTHER -> {})
 Reqs == {"required", "optional", "default"}
+\* ---- derived facts a parser must report ----
+\* Thrift: the first value is 0 unless given; every value without an explicit number is the previous value + 1
+RECURSIVE NumberFrom(_, _, _)
+NumberFrom(vals, i, prev) ==
+  IF i > Len(vals) THEN <<>>
+  ELSE LET v == IF vals[i].explicit = NONE THEN prev + 1 ELSE vals[i].explicit
+       IN <<[name |-> vals[i].name, value |-> v]>> \o NumberFrom(vals, i + 1, v)
+EnumNumbering(vals) == NumberFrom(vals, 1, -1)
+\* requiredness as parsed: union members are optional whatever is written; everything else as written
+EffReq(kind, req) == IF kind = "union" THEN "optional" ELSE req
 \* ---- well-formedness (what the compiler enforces or assumes) ----
 UniqueNames(s) == \A i, j \in Idx(s) : i # j => s[i].name # s[j].name
 UniqueIds(fs) == \A i, j \in Idx(fs) : i # j => fs[i].id # fs[j].id
@@ -93,21 +103,15 @@ Valid(p) ==
         \A a, b \in Idx(vs) : a # b => vs[a] # vs[b]
   /\ UniqueNames(p.typedefs \o p.enums \o p.structs) /\ UniqueNames(p.consts) /\ UniqueNames(p.services) /\ UniqueNames(p.scopes)
   /\ \A i \in Idx(p.structs) : FieldsOK(p, p.structs[i].fields)
-  /\ \A i \in Idx(p.enums) : UniqueNames(p.enums[i].vals)
+  /\ \A i \in Idx(p.enums) : /\ UniqueNames(p.enums[i].vals)
+        /\ LET nb == EnumNumbering(p.enums[i].vals) IN \A a, b \in Idx(nb) : a # b => nb[a].value # nb[b].value
+  /\ \A i \in Idx(p.consts) : p.consts[i].t \in Types(p) /\ (p.consts[i].v \in Defaults(p.consts[i].t) \/ p.consts[i].v.k = "id")
+  /\ \A i \in Idx(p.scopes) : UniqueNames(p.scopes[i].ops) /\ \A o \in Idx(p.scopes[i].ops) : p.scopes[i].ops[o].t \in Types(p)
   /\ \A i \in Idx(p.services) : /\ UniqueNames(p.services[i].methods)
         /\ \A m \in Idx(p.services[i].methods) : LET mm == p.services[i].methods[m] IN
              /\ FieldsOK(p, mm.args) /\ FieldsOK(p, mm.throws)
              /\ mm.oneway => (mm.ret = <<>> /\ mm.throws = <<>>)
-\* ---- derived facts a parser must report ----
-\* Thrift: the first value is 0 unless given; every value without an explicit number is the previous value + 1
-RECURSIVE NumberFrom(_, _, _)
-NumberFrom(vals, i, prev) ==
-  IF i > Len(vals) THEN <<>>
-  ELSE LET v == IF vals[i].explicit = NONE THEN prev + 1 ELSE vals[i].explicit
-       IN <<[name |-> vals[i].name, value |-> v]>> \o NumberFrom(vals, i + 1, v)
-EnumNumbering(vals) == NumberFrom(vals, 1, -1)
-\* requiredness as parsed: union members are optional whatever is written; everything else as written
-EffReq(kind, req) == IF kind = "union" THEN "optional" ELSE req
+             /\ \A r \in Idx(mm.ret) : mm.ret[r] \in Types(p)
 \* ---- state machine: build a program declaration by declaration ----
 VARIABLES p, steps, broken
 vars == <<p, steps, broken>>
@@ -122,7 +126,14 @@ EnumRefsBase == [Empty EXCEPT !.enums = <<[name |-> "Color", vals |-> <<[name |-
 AnnBase == [EnumRefsBase EXCEPT !.services = <<[name |-> "Svc", extends |-> "", methods |->
                <<[name |-> "get", oneway |-> FALSE, ret |-> <<R("T2")>>, args |-> <<[id |-> 1, req |-> "default", t |-> R("Thing"), name |-> "a", dflt |-> [k |-> "none"]]>>,
                   throws |-> <<>>, anns |-> 0]>>]>>]
-Init == /\ p = (IF Focus = "enumrefs" THEN EnumRefsBase ELSE IF Focus = "annotations" THEN AnnBase
+\* the focus "breaks" starts from a program in which every invalidating edit of Break is applicable (a struct with a field, an
+\* enum with values, an exception, a method with an argument, a result and a throws clause, a scope) and takes exactly one
+\* step: Break (with WithBreaks = TRUE and EmitAt = 1 an exhaustive run yields every invalid program one edit away from it)
+BreakBase == [AnnBase EXCEPT !.structs = <<[kind |-> "struct", name |-> "Rec", ann |-> FALSE, fields |->
+                                              <<[id |-> 1, req |-> "default", t |-> B("i32"), name |-> "count", dflt |-> [k |-> "none"]]>>],
+                                           [kind |-> "exception", name |-> "Other", ann |-> FALSE, fields |-> <<>>]>>,
+                              !.services[1].methods[1].throws = <<[id |-> 1, req |-> "default", t |-> R("Other"), name |-> "ex", dflt |-> [k |-> "none"]]>>]
+Init == /\ p = (IF Focus = "enumrefs" THEN EnumRefsBase ELSE IF Focus = "annotations" THEN AnnBase ELSE IF Focus = "breaks" THEN BreakBase
                 ELSE IF Focus = "fields" THEN [EnumRefsBase EXCEPT !.include = TRUE, !.tree = TRUE] ELSE Empty)
         /\ steps = 0 /\ broken = "none"
 Fields(p0, n, kind) ==
@@ -226,6 +237,7 @@ AddAny == CASE Focus = "enums" -> AddEnum \/ AddEnumValue
             [] Focus = "scopes" -> AddScope \/ AddOp
             [] Focus = "typedefs" -> AddEnum \/ AddTypedef
             [] Focus = "annotations" -> AddMethod \/ AnnotateMethod
+            [] Focus = "breaks" -> FALSE
             [] Focus = "fields" -> AddField \/ AddEnumDefaultField
             [] Focus = "enumrefs" -> \/ AddEnum \/ AddEnumValue \/ AddTypedef \/ AddStruct \/ AddField \/ AddEnumDefaultField \/ AddEnumConst
                                      \/ AddService \/ AddMethod \/ AddArg \/ AddScope \/ AddOp
@@ -260,6 +272,20 @@ Break ==
   \/ \E s \in Idx(p.services) : \E m \in Idx(p.services[s].methods) : p.services[s].methods[m].args # <<>> /\
         Brk([p EXCEPT !.services[s].methods[m].args = Append(@, F0(12, B("i32"), p.services[s].methods[m].args[1].name))], "duplicate-argument-name")
   \/ \E c \in Idx(p.scopes) : Brk([p EXCEPT !.scopes[c].prefix = <<"{usr}", "x", "{usr}">>], "duplicate-prefix-variable")
+  \/ \E s \in Idx(p.services) : \E m \in Idx(p.services[s].methods) : p.services[s].methods[m].throws # <<>> /\
+        Brk([p EXCEPT !.services[s].methods[m].throws = Append(@, [p.services[s].methods[m].throws[1] EXCEPT !.name = "again"])], "duplicate-throws-id")
+  \/ \E s \in Idx(p.services) : p.services[s].methods # <<>> /\
+        Brk([p EXCEPT !.services[s].methods = Append(@, p.services[s].methods[1])], "duplicate-method-name")
+  \/ \E s \in Idx(p.services) : Brk([p EXCEPT !.services = Append(@, [name |-> p.services[s].name, extends |-> "", methods |-> <<>>])], "duplicate-service-name")
+  \/ \E c \in Idx(p.scopes) : Brk([p EXCEPT !.scopes = Append(@, [name |-> p.scopes[c].name, prefix |-> <<>>, ops |-> <<>>])], "duplicate-scope-name")
+  \/ \E c \in Idx(p.scopes) : Brk([p EXCEPT !.scopes[c].ops = Append(Append(@, [name |-> "Twice", t |-> B("i32")]), [name |-> "Twice", t |-> B("i64")])], "duplicate-op-name")
+  \/ \E c \in Idx(p.scopes) : Brk([p EXCEPT !.scopes[c].ops = Append(@, [name |-> "Dangling", t |-> R("Missing")])], "dangling-op-type")
+  \/ Brk([p EXCEPT !.consts = Append(Append(@, [name |-> "KDUP", t |-> B("i32"), v |-> [k |-> "int", i |-> 1]]), [name |-> "KDUP", t |-> B("i32"), v |-> [k |-> "int", i |-> 2]])], "duplicate-const-name")
+  \/ Brk([p EXCEPT !.consts = Append(@, [name |-> "KBAD", t |-> B("i32"), v |-> [k |-> "str", s |-> "text"]])], "const-of-wrong-type")
+  \/ \E e \in Idx(p.enums) : p.enums[e].vals # <<>> /\
+        Brk([p EXCEPT !.enums[e].vals = Append(@, [name |-> "SAME_NUMBER", explicit |-> EnumNumbering(p.enums[e].vals)[1].value])], "duplicate-enum-number")
+  \/ \E s \in Idx(p.services) : Brk([p EXCEPT !.services[s].methods = Append(@, [name |-> "dangl", oneway |-> FALSE, ret |-> <<R("Missing")>>, args |-> <<>>, throws |-> <<>>, anns |-> 0])], "dangling-return-type")
+  \/ \E s \in Idx(p.services) : Brk([p EXCEPT !.services[s].methods = Append(@, [name |-> "dangl", oneway |-> FALSE, ret |-> <<>>, args |-> <<F0(1, R("Missing"), "a")>>, throws |-> <<>>, anns |-> 0])], "dangling-argument-type")
 \* ---- valid but hard constructs: exactly one family, as the last step of a walk ----
 KwNames == <<"type", "def", "class", "func", "return">>
 KwFields == [i \in 1..5 |-> F0(i, B("i32"), KwNames[i])]
